@@ -405,3 +405,182 @@ fn handle_breaches_both_garbled_step() {
     std::mem::forget(w);
 }
 wc_harness!(c06_handle_breaches_both_garbled, handle_breaches_both_garbled_step());
+
+// ------------------------------------------------------------------------------------------------ read requests
+/// C06.P2b: get_subscription_info: the authenticated message is the constant "get subscription info"; refused for an
+/// unrecoverable signature, an unregistered key or at height == expiry (with that expiry); otherwise returns *that*
+/// user's record and only that user's locators; never writes.
+fn get_subscription_info_step(recovered: Option<u8>, expired: bool) {
+    let w = concrete_watcher(false, false);
+    let expiry: u32 = kani::any();
+    kani::assume(expiry >= 1);
+    w.gatekeeper.verif_set_height(if expired { expiry } else { expiry - 1 });
+    let info0 = UserInfo::new(kani::any(), kani::any(), expiry);
+    let info1 = UserInfo::new(kani::any(), kani::any(), kani::any());
+    set_user(&w, 0, info0);
+    set_user(&w, 1, info1);
+    {
+        let dbm = w.dbm.lock().unwrap();
+        dbm.verif_push_appointment(the_uuid(0), ExtendedAppointment::new(appointment_with_blob(DISPUTE as u8, 7, 9, 9, 5), user(0), sig_of(b'o'), 3));
+        dbm.verif_push_appointment(uuid(77), ExtendedAppointment::new(appointment_with_blob(55, 7, 8, 8, 6), user(1), sig_of(b'p'), 2));
+    }
+    unsafe { RECOVER_SCRIPT = recovered };
+    let w0 = w.dbm.lock().unwrap().verif_writes();
+    let r = w.get_subscription_info("s");
+    assert!(unsafe { RECOVER_CALLS } == 1 && unsafe { RECOVER_MSG.0 } == 21 && unsafe { RECOVER_MSG.1 } == b'g' && unsafe { RECOVER_MSG.2 } == b' ',
+        "C06.auth: get_subscription_info authenticates the signature over exactly \"get subscription info\"");
+    assert!(w.dbm.lock().unwrap().verif_writes() == w0, "C06.read: a read request writes nothing");
+    match recovered {
+        Some(0) if !expired => match &r {
+            Ok((info, locators)) => {
+                assert!(*info == info0, "C06.read: the caller's own subscription is returned");
+                assert!(locators.len() == 1 && locators[0] == locator_of_tx(DISPUTE), "C06.isolation: only the caller's own appointments are listed");
+            }
+            Err(_) => assert!(false, "C06.read: a registered, unexpired user is served"),
+        },
+        Some(0) => assert!(matches!(r, Err(GetSubscriptionInfoFailure::SubscriptionExpired(x)) if x == expiry), "C09.expired: the error states the expiry"),
+        _ => assert!(matches!(r, Err(GetSubscriptionInfoFailure::AuthenticationFailure)), "C06.auth: an unrecoverable or unregistered key is refused"),
+    }
+    kani::cover!(true, "reach");
+    std::mem::forget(r);
+    std::mem::forget(w);
+}
+w_harness!(c06_subinfo_ok, get_subscription_info_step(Some(0), false));
+w_harness!(c06_subinfo_expired, get_subscription_info_step(Some(0), true));
+w_harness!(c06_subinfo_unregistered, get_subscription_info_step(Some(2), false));
+w_harness!(c06_subinfo_bad_signature, get_subscription_info_step(None, false));
+
+/// C06.P2c / C02.P4: get_appointment (message formatting stubbed, see DESIGN): after authentication the caller sees its
+/// own tracker (dispute_responded) if one exists, else its own appointment, else NotFound; another user's appointment
+/// for the same locator is never returned; nothing is written.
+fn get_appointment_step(recovered: Option<u8>, pre: Pre) {
+    let w = concrete_watcher(false, false);
+    let expiry: u32 = kani::any();
+    kani::assume(expiry >= 1);
+    w.gatekeeper.verif_set_height(expiry - 1);
+    set_user(&w, 0, UserInfo::new(kani::any(), kani::any(), expiry));
+    set_user(&w, 1, UserInfo::new(kani::any(), kani::any(), kani::any()));
+    {
+        let dbm = w.dbm.lock().unwrap();
+        if pre != Pre::Fresh {
+            dbm.verif_push_appointment(the_uuid(0), ExtendedAppointment::new(appointment_with_blob(DISPUTE as u8, 7, 9, 9, 5), user(0), sig_of(b'o'), 3));
+        }
+        if pre == Pre::Triggered {
+            dbm.verif_push_tracker(the_uuid(0), tracker(0, user(0), ConfirmationStatus::ConfirmedIn(4)));
+        }
+        dbm.verif_push_appointment(the_uuid(1), ExtendedAppointment::new(appointment_with_blob(DISPUTE as u8, 7, 8, 8, 6), user(1), sig_of(b'p'), 2));
+    }
+    unsafe { RECOVER_SCRIPT = recovered };
+    let w0 = w.dbm.lock().unwrap().verif_writes();
+    let r = w.get_appointment(locator_of_tx(DISPUTE), "s");
+    assert!(w.dbm.lock().unwrap().verif_writes() == w0, "C06.read: a read request writes nothing");
+    match (recovered, pre) {
+        (Some(0), Pre::Triggered) => assert!(matches!(&r, Ok(AppointmentInfo::Tracker(t)) if t.dispute_tx.lock_time.to_consensus_u32() == 100
+            && t.penalty_tx.lock_time.to_consensus_u32() == 200 && t.status == ConfirmationStatus::ConfirmedIn(4)),
+            "C01.report: a responded appointment is reported as its tracker with exactly that dispute and penalty"),
+        (Some(0), Pre::Stored) => assert!(matches!(&r, Ok(AppointmentInfo::Appointment(a)) if a.to_self_delay == 5 && a.encrypted_blob.len() == 7 && a.encrypted_blob[0] == 9),
+            "C08.readback: an appointment that is being watched is returned as accepted (the caller's own version, not another user's)"),
+        (Some(0), Pre::Fresh) => assert!(matches!(r, Err(GetAppointmentFailure::NotFound)), "C06.isolation: another user's appointment for the same locator is not revealed"),
+        _ => assert!(matches!(r, Err(GetAppointmentFailure::AuthenticationFailure)), "C06.auth: an unrecoverable or unregistered key is refused"),
+    }
+    kani::cover!(true, "reach");
+    std::mem::forget(r);
+    std::mem::forget(w);
+}
+macro_rules! wf_harness {
+    ($name:ident, $body:expr) => {
+        #[kani::proof]
+        #[kani::stub(bitcoin::Transaction::compute_txid, crate::verif_stubs::txid_model)]
+        #[kani::stub(bitcoin::block::Header::block_hash, crate::verif_stubs::block_hash_model)]
+        #[kani::stub(Carrier::hang_until_bitcoind_reachable, Carrier::hang_model)]
+        #[kani::stub(teos_common::cryptography::recover_pk, crate::verif_stubs::recover_pk_scripted)]
+        #[kani::stub(crate::extended_appointment::UUID::new, crate::verif_stubs::uuid_model)]
+        #[kani::stub(alloc::fmt::format, crate::verif_stubs::format_model)]
+        #[kani::unwind(6)]
+        fn $name() {
+            $body
+        }
+    };
+}
+wf_harness!(c06_getapp_tracker, get_appointment_step(Some(0), Pre::Triggered));
+wf_harness!(c06_getapp_appointment, get_appointment_step(Some(0), Pre::Stored));
+wf_harness!(c06_getapp_other_users_only, get_appointment_step(Some(0), Pre::Fresh));
+wf_harness!(c06_getapp_bad_signature, get_appointment_step(None, Pre::Stored));
+
+/// C08.P1: Watcher::register returns the gatekeeper's receipt, signed by the tower over exactly its serialisation.
+fn register_step() {
+    let w = concrete_watcher(false, false);
+    let h: u32 = kani::any();
+    w.gatekeeper.verif_set_height(h);
+    let r = w.register(user(2));
+    match &r {
+        Ok(receipt) => {
+            assert!(receipt.subscription_start() == h && receipt.signature().is_some(), "C08.receipt: the registration receipt starts at the tower's height and is signed");
+            assert!(unsafe { SIGN_CALLS } == 1 && unsafe { SIGN_MSG.0 } == 33 + 12 && unsafe { SIGN_MSG.1 } == 2 && unsafe { SIGN_MSG.2 } == receipt.subscription_expiry().to_be_bytes(),
+                "C08.receipt: the tower signs exactly user_id || slots || start || expiry");
+            assert!(w.gatekeeper.verif_db(user(2)).map(|i| (i.available_slots, i.subscription_start, i.subscription_expiry))
+                == Some((receipt.available_slots(), receipt.subscription_start(), receipt.subscription_expiry())),
+                "C08.receipt: the receipt carries the persisted values");
+        }
+        Err(_) => assert!(false, "C09.register: a first registration cannot hit the slot limit"),
+    }
+    kani::cover!(true, "reach");
+    std::mem::forget(r);
+    std::mem::forget(w);
+}
+#[kani::proof]
+#[kani::stub(bitcoin::Transaction::compute_txid, crate::verif_stubs::txid_model)]
+#[kani::stub(bitcoin::block::Header::block_hash, crate::verif_stubs::block_hash_model)]
+#[kani::stub(teos_common::cryptography::sign, crate::verif_stubs::sign_model)]
+#[kani::stub(teos_common::UserId::to_vec, crate::verif_stubs::userid_to_vec_model)]
+#[kani::unwind(36)]
+fn c08_register_signed() {
+    register_step();
+}
+
+// ------------------------------------------------------------------------------------------------ block connection
+/// C01.P1: Watcher::filtered_block_connected for a block that contains the dispute of one stored appointment (blob good
+/// or garbled) plus an unrelated transaction: the cache learns the block, the breach is answered (tracker) or the
+/// garbled appointment (only) is deleted without refund, the height is recorded last.
+fn block_connected_step(blob_ok: bool) {
+    let w = concrete_watcher(false, false);
+    let ch: u32 = kani::any();
+    w.responder.verif_set_carrier_height(ch);
+    let bal: u32 = kani::any();
+    set_user(&w, 0, UserInfo::new(bal, 1, 1000));
+    let (b0, b1) = if blob_ok { (1u8, DISPUTE as u8) } else { (7u8, 7u8) };
+    {
+        let dbm = w.dbm.lock().unwrap();
+        dbm.verif_push_appointment(the_uuid(0), ExtendedAppointment::new(appointment_with_blob(DISPUTE as u8, 7, b0, b1, 5), user(0), sig_of(b'o'), 3));
+        dbm.verif_push_appointment(uuid(77), ExtendedAppointment::new(appointment_with_blob(55, 7, 8, 8, 6), user(1), sig_of(b'p'), 2));
+    }
+    unsafe {
+        node::SCRIPT = Some(Outcome::Ok);
+        node::QUERY_SCRIPT = Some(Outcome::Rpc(-5));
+    }
+    let height: u32 = kani::any();
+    let d = tx(DISPUTE);
+    let other = tx(33);
+    let txdata: Vec<(usize, &Transaction)> = vec![(0, &other), (1, &d)];
+    chain::Listen::filtered_block_connected(&w, &hdr(3), &txdata, height);
+    assert!(w.verif_height() == height, "C01.block: the watcher records the connected height");
+    assert!(w.locator_cache.lock().unwrap().get(&locator_of_tx(DISPUTE)).is_some(), "C19/C01.block: the block's transactions enter the locator cache");
+    let (m0, d0) = (w.gatekeeper.verif_mem(user(0)), w.gatekeeper.verif_db(user(0)));
+    let dbm = w.dbm.lock().unwrap();
+    assert!(dbm.appointment_exists(uuid(77)), "C01.block: appointments that were not triggered stay");
+    assert!(m0.map(|i| i.available_slots) == Some(bal) && d0.map(|i| i.available_slots) == Some(bal), "C07: no slot is refunded for a dropped appointment");
+    if blob_ok {
+        assert!(unsafe { node::N_SENT } == 1, "C01.block: the penalty is submitted while the block is handled");
+        assert!(dbm.verif_tracker_row(the_uuid(0)).map_or(false, |t| t.dispute == DISPUTE && t.penalty == DISPUTE + 100 && t.status == ConfirmationStatus::InMempoolSince(ch)),
+            "C01.block: the breached appointment becomes a tracker with exactly that dispute and penalty");
+    } else {
+        assert!(unsafe { node::N_SENT } == 0, "C02: nothing is sent for a blob that does not decrypt");
+        assert!(!dbm.appointment_exists(the_uuid(0)) && !dbm.tracker_exists(the_uuid(0)), "C01.block: an appointment whose blob does not decrypt is dropped (only it)");
+    }
+    kani::cover!(true, "reach");
+    drop(dbm);
+    std::mem::forget(txdata);
+    std::mem::forget(w);
+}
+wc_harness!(c01_p1_block_connected_breach, block_connected_step(true));
+wc_harness!(c01_p1_block_connected_garbled, block_connected_step(false));
